@@ -3,7 +3,7 @@ from __future__ import annotations
 
 from typing import Any, Dict, List
 
-from vlib.driver import Plan
+from vlib.driver import Obligation, Plan
 from vlib.xh import Condition
 
 H = "harness/c13.py"
@@ -57,6 +57,35 @@ PAIRS: List[tuple] = [
 ]
 
 
+# alias and standard spelling must be accepted / refused alike and compile to one structure
+ACCEPT_PAIRS = [
+    ("$[?@.* <> 1]", "$[?@.* != 1]"), ("$[?match(@.a, 'a') <> true]", "$[?match(@.a, 'a') != true]"), ("$[?@.a <> 1]", "$[?@.a != 1]"),
+    ("$[?not(@.a)]", "$[?!(@.a)]"), ("$[?not (@.a)]", "$[?!(@.a)]"), ("$[?@.a and(@.b)]", "$[?@.a &&(@.b)]"), ("$[?@.a or(@.b)]", "$[?@.a ||(@.b)]"),
+    ("$[?@.a and (@.b)]", "$[?@.a && (@.b)]"), ("$[?not(@.a == 1) and not(@.b)]", "$[?!(@.a == 1) && !(@.b)]"),
+    ("$[_a]", "$['_a']"), ("_a", "$._a"), ("$[_a, b]", "$['_a', 'b']"), ("_a.b", "$._a.b"), ("$[a_, a_b]", "$['a_', 'a_b']"),
+    ("$[?@.a == nil]", "$[?@.a == null]"), ("$[?@.a == None]", "$[?@.a == null]"), ("$[?@.a == True && @.b == False]", "$[?@.a == true && @.b == false]"),
+    ("$[?@.a == undefined]", "$[?@.a == missing]"),
+]
+
+
+def accept_obligation(ext: str, std: str) -> Obligation:
+    def run() -> Dict[str, Any]:
+        import importlib
+        import os
+
+        os.environ.setdefault("VERIF_P", "{}")
+        from vlib import hs
+
+        h = importlib.import_module("harness.c13")
+        del hs.WHY[:]
+        rep = {"harness": H, "fn": "same_acceptance", "params": {}, "call": f"same_acceptance({ext!r}, {std!r})"}
+        if h.same_acceptance(ext, std):
+            return {"status": "discharged", "detail": f"{ext!r} ~ {std!r}"}
+        return {"status": "violated", "detail": str(hs.WHY[-1:]), "replay": rep}
+
+    return Obligation(f"accept:{ext}", run, kind="deterministic-compile")
+
+
 def plan(tier: str, seed: int) -> Plan:
     thorough = tier == "thorough"
     T = 150 if thorough else 60
@@ -73,6 +102,7 @@ def plan(tier: str, seed: int) -> Plan:
                                       + ", two int leaves; filter context {k: symbolic, a: [k, 1], s: 'abc', o: {a: 1}}"))
     return Plan(
         conditions=conds,
+        obligations=[accept_obligation(e, st) for e, st in ACCEPT_PAIRS],
         explanation=(
             "Each documented extension is compiled by the live compiler next to its standard spelling (or compared with a reference "
             "written from the documentation) and both are executed symbolically on the same document and filter context: implicit root "
